@@ -76,14 +76,30 @@ def scan_body(ctx, report):
     return None, None
 
 
-def cleanup_roots(ctx, report):
+def cleanup_views(ctx, report):
+    """[(entry point, its flat view, the unlink/rename sites in the view)] for the API functions on the report that
+    remove something - in their own body or in private helpers they share (a `dispose(how)` helper whose `match` on
+    the literal argument is decided per entry point)."""
     out = []
+    keys = {}
+    for e in ctx.fx.effects:
+        if e.kind in ("FS_UNLINK", "FS_RENAME") and e.site.kind == "call":
+            keys[e.site.key()] = e
+    # path builders stay calls (`cas_file_path(hash)`): the rules read "the path of this hash" off the call
+    prog = ctx.prog
+    builders = tuple(sorted(p_ for p_, bd in prog.bodies.items() if not bd.is_closure and
+                            prog.adt_of(bd.locals[0])[0] in ("std::path::PathBuf", "std::path::Path")))
     for b in ctx.api_roots():
         if b.argc >= 1 and ctx.prog.adt_of(b.locals[1])[0] == report:
-            fx = [e for e in ctx.fx.effects if e.site.body.path == b.path and e.kind in ("FS_UNLINK", "FS_RENAME")]
-            if fx:
-                out.append(b)
+            V = ctx.flat(b, stop=builders)
+            rem = [(fs, keys[fs.key()]) for fs in V.sites(("call",)) if fs.key() in keys and not V.blocks[fs.bb].get("cleanup")]
+            if rem:
+                out.append((b, V, rem))
     return out
+
+
+def cleanup_roots(ctx, report):
+    return [b for (b, _V, _r) in cleanup_views(ctx, report)]
 
 
 def rules(ctx, tier):
@@ -106,30 +122,34 @@ def rules(ctx, tier):
             "clean-up entry points: %s" % ", ".join(b.path.split("::")[-1] for b in croots),
             "expected 3 clean-up entry points on %s, found %d" % (report, len(croots)))
     n_unlink = 0
-    for b in croots:
-        for site in ctx.sem_sites("BLOB_UNLINK"):
-            if site.body.path != b.path:
+    cviews = cleanup_views(ctx, report)
+    unlink_keys = set(s_.key() for s_ in ctx.sem_sites("BLOB_UNLINK"))
+    g_ = ctx.world.vfg
+    for (b, V, rem) in cviews:
+        for (fs, e) in rem:
+            # a blob unlink: by its own classification, or (the path being a parameter of a private helper) by the
+            # class of the path it is handed in this view
+            if fs.key() not in unlink_keys and not (e.kind == "FS_UNLINK" and "CAS_BLOB" in g_.labels_of_operand(
+                    V, fs.term["args"][0])):
                 continue
+            site = V.orig_site(fs)
             n_unlink += 1
             h = L.must_held_at(site)
             cs = set(c for c, _ in (h or ()))
             r.check(bool(P) and P <= cs, "held:%s" % site_construct(site), b,
                     "%s at %s under %s" % (site_construct(site), site_where(site), sorted(cs)),
                     "%s at %s without the protocol lock" % (site_construct(site), site_where(site)), site_where(site))
-            c04.check_direct_unlink(ctx, r, site, fcont)
-            membership_guard(ctx, r, b, site, report)
+            c04.check_direct_unlink(ctx, r, fs, fcont, kb=b)
+            membership_guard(ctx, r, V, fs, report, kb=b)
     r.need(10, "3 entry points: lock held + two guards each")
     out.append(r.finish())
 
     r = Rule("R2", "only reported garbage is removed: every removed path comes from a list of the same report",
              "clean-up deletes something the scan did not report (a fresh scan result, or a path from the index)")
     from ..prov import TRANSPARENT, ITER_PRESERVING
-    for b in croots:
+    for (b0, b, rem) in cviews:
         sl = Slicer(ctx.world, b, transparent=TRANSPARENT | ITER_PRESERVING)
-        for e in ctx.fx.effects:
-            if e.site.body.path != b.path or e.kind not in ("FS_UNLINK", "FS_RENAME"):
-                continue
-            site = e.site
+        for (site, e) in rem:
             leaves = sl.leaves_of_operand(site.term["args"][0])
             ok = True
             why = []
@@ -155,7 +175,7 @@ def rules(ctx, tier):
                 else:
                     ok = False
                     why.append(fmt_leaf(l))
-            r.check(ok and bool(leaves), "operand:%s" % site_construct(site), b,
+            r.check(ok and bool(leaves), "operand:%s" % site_construct(site), b0,
                     "%s at %s removes %s" % (e.kind, site_where(site), ", ".join(sorted(set(why)))),
                     "%s at %s removes a path with origins %s (not a list of the report)" % (
                         e.kind, site_where(site), ", ".join(sorted(set(why)))), site_where(site))
@@ -247,7 +267,13 @@ def verify_switch(ctx, r, sb):
                 continue
             lv = sl.leaves_up(csite.term["args"][i - 1], depth=3)
             n += 1
-            plain = len(lv) == 1 and list(lv)[0][0] in ("param", "xparam", "const", "upvar", "xupvar")
+            # one value per caller: a helper shared by two entry points is handed each one's own setting
+            per_root = {}
+            for l in lv:
+                root_ = l[1][0] if l[0] in ("xparam", "xupvar") and isinstance(l[1], tuple) else b.path
+                per_root.setdefault(root_, []).append(l)
+            plain = bool(lv) and all(l[0] in ("param", "xparam", "const", "upvar", "xupvar") for l in lv) and \
+                all(len(v) == 1 for v in per_root.values())
             r.check(plain, "verify-arg:%s" % stable_path(b), b,
                     "the switch handed to the scan at %s is %s" % (site_where(csite), ", ".join(fmt_leaf(l) for l in lv)),
                     "the verification switch handed to the scan at %s is computed from %s: verification requested by the "
@@ -264,12 +290,7 @@ def cleanup_complete(ctx, r, report):
     must = ctx.must(None)
     vec_fields = set(f["name"] for f in prog.adts[report]["variants"][0]["fields"]
                      if prog.adt_of(f["ty"])[0] == "std::vec::Vec")
-    for b in ctx.api_roots():
-        if b.argc < 1 or prog.adt_of(b.locals[1])[0] != report:
-            continue
-        removes = [e for e in ctx.fx.effects if e.site.body.path == b.path and e.kind in ("FS_UNLINK", "FS_RENAME")]
-        if not removes:
-            continue
+    for (b0, b, removes) in cleanup_views(ctx, report):
         from ..prov import TRANSPARENT, ITER_PRESERVING
         sl = Slicer(ctx.world, b, transparent=TRANSPARENT | ITER_PRESERVING)
         walks = {}
@@ -283,7 +304,7 @@ def cleanup_complete(ctx, r, report):
                     walks.setdefault(l[2][0], []).append(s)
         if not walks:
             continue
-        rf = must.rf(b)
+        rf = ctx.rf(b)
         ok_exits = [x for x, k in rf.forwarded.items() if k == "ok" or isinstance(k, tuple)]
         for f, sites in sorted(walks.items()):
             bad = []
@@ -306,13 +327,67 @@ def cleanup_complete(ctx, r, report):
                         excused = True
                 if not excused:
                     bad.append(x)
-            r.check(not bad, "walks:%s" % f, b,
+            r.check(not bad, "walks:%s" % f, b0,
                     "%s walks report.%s on every path to its Ok return" % (b.path.split("::")[-1], f),
                     "%s can return Ok (%s) without having walked report.%s: what the scan reported there is left behind" % (
                         b.path, ", ".join("%s:%d" % (b.file, b.blocks[x]["span"]["line"]) for x in bad), f))
 
 
-def membership_guard(ctx, r, b, site, report):
+def _any_is_membership(ctx, b, sl, t, hl):
+    """`recv.iter().any(|x| x == h)` with recv a list of the report (a field of self) and h one of the leaves `hl`."""
+    prog = ctx.prog
+    if len(t["args"]) < 2:
+        return False
+    # the iterator: (a reference to) the result of `.iter()` / `.into_iter()` on a field of the first parameter
+    cur = t["args"][0]
+    recv = set()
+    for _ in range(4):
+        lv = sl.leaves_of_operand(cur)
+        pl = place_of(cur)
+        if pl is not None and not pl["p"]:
+            v = ctx.world.borrowed_local(b, cur)
+            if v is not None:
+                lv = sl.leaves_of_place({"l": v, "p": []})
+        calls = [x for x in lv if x[0] == "call" and x[1].split("::")[-1] in ("iter", "into_iter") and
+                 not isinstance(x[2], tuple)]
+        if len(lv) == 1 and calls:
+            cur = b.blocks[calls[0][2]]["term"]["args"][0]
+            continue
+        recv = lv
+        break
+    if not any(x[0] == "param" and x[1] == 1 and x[2] for x in recv):
+        return False
+    cpl = place_of(t["args"][1])
+    cd = prog.closure_def_of_type(b.locals[cpl["l"]]) if cpl is not None and not cpl["p"] else None
+    cb = prog.bodies.get(cd) if cd else None
+    if cb is None:
+        return False
+    csl = Slicer(ctx.world, cb)
+    ret = csl.leaves_of_place({"l": 0, "p": []})
+    for x in ret:
+        sides = None
+        if x[0] == "call" and x[1] == "std::cmp::PartialEq::eq" and not isinstance(x[2], tuple):
+            a = cb.blocks[x[2]]["term"]["args"]
+            sides = (a[0], a[1])
+        elif x[0] == "binop" and x[1] == "Eq" and not isinstance(x[2], tuple):
+            for st in cb.stmts(x[2]):
+                if st["k"] == "assign" and st["rv"]["k"] == "binop" and st["rv"]["op"] == "Eq":
+                    sides = (st["rv"]["a"], st["rv"]["b"])
+        if sides is None or len(ret) != 1:
+            return False
+        for (i_, c_) in ((sides[0], sides[1]), (sides[1], sides[0])):
+            li = csl.leaves_of_operand(i_)
+            lc = csl.leaves_up(c_, depth=1)
+            item = bool(li) and all(y[0] == "param" and y[1] >= 2 for y in li)
+            capt = bool(lc) and all((y[0] == "xparam" and y[1][0] == b.path and ("param", y[1][1], y[2]) in hl) or
+                                    (y[0] == "param" and y in hl and cb.path == b.path) for y in lc)
+            if item and capt:
+                return True
+    return False
+
+
+def membership_guard(ctx, r, b, site, report, kb=None):
+    kb = kb or b
     """If the unlinked hash is a plain parameter (not a loop item of a report list), the unlink must be
     behind a positive membership test in a list of the report."""
     sl = Slicer(ctx.world, b)
@@ -332,6 +407,15 @@ def membership_guard(ctx, r, b, site, report):
         leaves = sl.leaves_of_operand(c[1]) if c[0] == "bool" else {("call", c[1], c[4], ())}
         neg = c[3] if c[0] == "call" else False
         for l in leaves:
+            if l[0] == "call" and l[1].endswith("Iterator::any") and not isinstance(l[2], tuple):
+                # `list.iter().any(|x| x == hash)`: membership spelt as a search
+                t = b.blocks[l[2]]["term"]
+                if _any_is_membership(ctx, b, sl, t, hl):
+                    tt, ff = cfgutil.true_false_edges(b, bb)
+                    edge = ff if neg else tt
+                    if edge is not None and cfgutil.edge_dominates(b, (bb, edge), site.bb):
+                        ok = True
+                continue
             if l[0] != "call" or not l[1].endswith("::contains"):
                 continue
             t = b.blocks[l[2]]["term"]
@@ -342,7 +426,7 @@ def membership_guard(ctx, r, b, site, report):
                 edge = ff if neg else tt
                 if edge is not None and cfgutil.edge_dominates(b, (bb, edge), site.bb):
                     ok = True
-    r.check(ok, "membership:%s" % b.path.split("::")[-1], b,
+    r.check(ok, "membership:%s" % kb.path.split("::")[-1], kb,
             "%s removes the given hash only if it is in the report's orphan list" % b.path,
             "%s removes a caller-supplied hash without checking that the scan reported it" % b.path, site_where(site))
 
@@ -516,17 +600,27 @@ def walk_classifies(ctx, r, sb):
     reached again through a block that records the entry (push / insert) or descends into it (read_dir)."""
     g = ctx.world.vfg
     classify = set()
+    prog = ctx.prog
+    listers = set()         # crate-local helpers that list a directory they are given
+    for e in ctx.fx.effects:
+        if (e.site.path or "").endswith("fs::read_dir") or (e.site.path or "").endswith("Path::read_dir"):
+            listers.add(e.site.body.path)
     for s in sb.calls():
         p = s.path or ""
+        tg = prog.local_target(s)
         if p in ("std::vec::Vec::push", "std::collections::HashSet::insert", "std::collections::HashMap::insert",
-                 "std::fs::read_dir", "std::collections::BTreeSet::insert"):
+                 "std::fs::read_dir", "std::collections::BTreeSet::insert") or (tg is not None and tg.path in listers):
             classify.add(s.bb)
     n = 0
     for s in sb.calls():
-        if s.resolved != "<std::fs::ReadDir as std::iter::Iterator>::next" and \
-                (s.callee.get("resolved") or "") != "<std::fs::ReadDir as std::iter::Iterator>::next":
+        # the loop over a directory listing: `next` of a ReadDir, or of an adaptor over one (a `list_dir` helper that
+        # maps the error of each entry) - told by what the iterator was read from
+        if (s.path or "") != "std::iter::Iterator::next" or not s.term["args"]:
             continue
         labels = g.labels_of_operand(sb, s.term["args"][0])
+        if (s.callee.get("resolved") or "") != "<std::fs::ReadDir as std::iter::Iterator>::next" and \
+                not any(x.startswith("DIRSCAN:") for x in labels):
+            continue
         if not any("CAS" in x for x in labels):
             if any("STAGING" in x for x in labels):
                 r.note("staging loop at %s: entries that are not regular files are skipped (not armed)" % site_where(s))
